@@ -556,7 +556,14 @@ package cron
 // New: a new Cron that shares only immutable things with the package (the default logger and the default parser are
 // read, never written); the options are applied to the new object only.
 //@ func New
-//@   tags C08
+//@   tags C08 C05
+// C05 ("After Remove returns the entry is not started again, after Stop returns nothing is started", Entries' snapshot): Remove,
+// Stop, Schedule and Entries hand their request to the scheduler over UNBUFFERED channels, so their return means the scheduler has
+// taken the request (the rendezvous the paper step of [C05.remove.handoff] / [C05.stop.signal] relies on). The channels are made here.
+//@   at every store remove assert [C05.new.rendezvous.remove] cap(arg0) == 0
+//@   at every store stop assert [C05.new.rendezvous.stop] cap(arg0) == 0
+//@   at every store add assert [C05.new.rendezvous.add] cap(arg0) == 0
+//@   at every store snapshot assert [C05.new.rendezvous.snapshot] cap(arg0) == 0
 //@   requires forall i :: 0 <= i && i < len(opts) ==> opts[i] != nil      // a nil Option is a nil function call (caller's error)
 //@   modifies nothing
 //@   loop 0 invariant -1 <= rangeindex && rangeindex < len(opts)
